@@ -171,16 +171,17 @@ theorem getD_map_lt (key : Bytes) (j : Nat) : (key.map UInt8.toNat).getD j 0 < 2
   | some b => simpa using byte_lt b
 
 /-- the label index at bit position `4 i` of the Go code is the model's label index at half-byte
-    position `i`; `w` is the word size in bits (4, or 8 for big nodes — then `i` must be even:
-    8-bit words start at byte boundaries).  Bit positions fit an `int32`. -/
+    position `i`; `w` is the word size in bits (4, or 8 for big nodes: both read the whole byte
+    that contains the position, aligned or not).  Bit positions fit an `int32`. -/
 theorem getLabelIdxOfKey_sem (key : Bytes) (i w : Nat) (hw : w = 4 ∨ w = 8)
-    (hlen : 8 * key.length < 2 ^ 31) (hi : 4 * i < 2 ^ 31) (heven : w = 8 → i % 2 = 0) :
+    (hlen : 8 * key.length < 2 ^ 31) (hi : 4 * i < 2 ^ 31) :
     Generated.getLabelIdxOfKey (4 * i) (key.map UInt8.toNat) (8 * key.length) w
       = ((labelIdxOfKey (nibs key) i (w == 8) : Nat) : Int) := by
   have hb := getD_map_lt key (i / 2)
   have hshift : 4 * i / 2 ^ 3 = i / 2 := by omega
   unfold Generated.getLabelIdxOfKey labelIdxOfKey
-  rw [nibs_length', nibs_getD, nibs_getD]
+  rw [nibs_length']
+  simp only [nibs_getD]
   rcases hw with rfl | rfl
   · -- 4-bit words
     go_simp
@@ -192,11 +193,13 @@ theorem getLabelIdxOfKey_sem (key : Bytes) (i w : Nat) (hw : w = 4 ∨ w = 8)
       | omega
       | (go_simp <;> omega)
       | (simp at * <;> omega)
-  · -- 8-bit words at an even half-byte position
-    have he := heven rfl
-    have e2 : (i + 1) / 2 = i / 2 := by omega
+  · -- 8-bit words: the byte that contains the position
+    have e1 : (i - i % 2) / 2 = i / 2 := by omega
+    have e2 : (i - i % 2 + 1) / 2 = i / 2 := by omega
+    have e3 : (i - i % 2) % 2 = 0 := by omega
+    have e4 : ¬ (i - i % 2 + 1) % 2 = 0 := by omega
     go_simp
-    simp only [hshift, e2]
+    simp only [hshift, e1, e2, e3, e4, if_true, if_false]
     generalize (key.map UInt8.toNat).getD (i / 2) 0 = x at hb ⊢
     repeat' split
     all_goals first
